@@ -37,13 +37,13 @@ type Case struct {
 		// Refix: recompute the checksum after the alteration (a forged frame whose checksum verifies)
 		Refix bool `json:"refix,omitempty"`
 	} `json:"alter,omitempty"`
-	CutAt int    `json:"cutAt"` // absolute offset at which the stream ends; -1 = not cut
-	Reads []int  `json:"reads"` // sizes of the Read calls (cycled)
-	NRead int    `json:"nread"` // number of Read calls
-	Via   string `json:"via"`   // reader | proto
-	Sweep string `json:"sweep,omitempty"` // "alter": every offset of frame Alter.Frame; "cut": every cut position
-	Stride int   `json:"stride,omitempty"`
-	Phase  int   `json:"phase,omitempty"`
+	CutAt  int    `json:"cutAt"`           // absolute offset at which the stream ends; -1 = not cut
+	Reads  []int  `json:"reads"`           // sizes of the Read calls (cycled)
+	NRead  int    `json:"nread"`           // number of Read calls
+	Via    string `json:"via"`             // reader | proto
+	Sweep  string `json:"sweep,omitempty"` // "alter": every offset of frame Alter.Frame; "cut": every cut position
+	Stride int    `json:"stride,omitempty"`
+	Phase  int    `json:"phase,omitempty"`
 }
 
 type Event map[string]any
